@@ -167,6 +167,11 @@ fn cmd_replay(path: &str, dump: bool, fresh: bool) -> i32 {
         eprintln!("cannot read {}", path);
         return 2;
     };
+    if let Ok(v) = serde_json::from_str::<serde_json::Value>(&s) {
+        if v["kind"].as_str() == Some("miri") {
+            return cmd_replay_miri(&v, dump);
+        }
+    }
     let rf: ReplayFile = match serde_json::from_str(&s) {
         Ok(r) => r,
         Err(e) => {
@@ -257,8 +262,10 @@ fn cmd_check(prop: &str, tier: &str) -> i32 {
             }
         }
     }
+    let (miri_ev, miri_viol) = miri_stage(prop, tier, seed);
+    new_violations += miri_viol;
     let wall = t0.elapsed().as_secs_f64();
-    write_evidence(prop, tier, seed, &agg, wall, new_violations, known_hits, &reported);
+    write_evidence(prop, tier, seed, &agg, wall, new_violations, known_hits, &reported, &miri_ev);
     println!(
         "{} {}: runs={} distinct_schedules={} distinct_histories={} nontrivial_distinct={} checkpoint_states={} violations={} known={} wall={:.1}s",
         prop,
@@ -279,6 +286,110 @@ fn cmd_check(prop: &str, tier: &str) -> i32 {
     }
 }
 
+/// Second stage for a few properties: tiny multi-threaded scenarios of the UNHOOKED library under
+/// Miri's seeded scheduler (instruction-level preemption, data-race detection, UB checks) - the
+/// granularity the baton simulator cannot reach.  Returns (evidence, violation lines printed).
+fn miri_scenario(prop: &str) -> Option<&'static str> {
+    match prop {
+        "C01" => Some("capacity_race"),
+        "C02" => Some("value_refs"),
+        "C17" => Some("metrics_many_threads"),
+        "C18" => Some("first_use_hashing"),
+        _ => None,
+    }
+}
+
+fn miri_cmd(scenario: &str, seeds: &str) -> std::process::Command {
+    let dir = std::env::current_dir().unwrap_or_else(|_| std::path::PathBuf::from("/verif")).join("miri-harness");
+    let mut c = std::process::Command::new("cargo");
+    c.current_dir(dir)
+        .args(["+nightly", "miri", "run", "--offline", "--", scenario])
+        .env("CARGO_NET_OFFLINE", "true")
+        // the simulator's cfg flag comes from /verif/.cargo/config.toml; an explicit RUSTFLAGS wins
+        .env("RUSTFLAGS", "--cap-lints=warn")
+        .env("MIRIFLAGS", format!("-Zmiri-disable-isolation -Zmiri-ignore-leaks {}", seeds));
+    c
+}
+
+fn miri_stage(prop: &str, tier: &str, seed: u64) -> (serde_json::Value, usize) {
+    let Some(scenario) = miri_scenario(prop) else { return (serde_json::Value::Null, 0) };
+    if std::env::var("DST_NO_MIRI").is_ok() {
+        return (serde_json::json!({"scenario": scenario, "status": "skipped (DST_NO_MIRI)"}), 0);
+    }
+    let n: u64 = std::env::var("DST_MIRI_SEEDS").ok().and_then(|s| s.parse().ok()).unwrap_or(match (tier, scenario) {
+        ("thorough", "metrics_many_threads") => 96, // 27 threads: ~15 s per seed
+        ("thorough", _) => 256,
+        _ => 32,
+    });
+    let from = (seed % 1000) * 1000;
+    let t0 = std::time::Instant::now();
+    let out = miri_cmd(scenario, &format!("-Zmiri-many-seeds={}..{}", from, from + n)).output();
+    let wall = t0.elapsed().as_secs_f64();
+    let Ok(out) = out else {
+        eprintln!("miri stage unavailable (cargo +nightly miri could not be started); only the simulator stage decides");
+        return (serde_json::json!({"scenario": scenario, "status": "unavailable"}), 0);
+    };
+    let text = format!("{}{}", String::from_utf8_lossy(&out.stdout), String::from_utf8_lossy(&out.stderr));
+    let tried = text.matches("Trying seed:").count();
+    if tried == 0 {
+        eprintln!("miri stage unavailable (no seed was tried; see .miri.log); only the simulator stage decides");
+        let _ = std::fs::write(".miri.log", &text);
+        return (serde_json::json!({"scenario": scenario, "status": "unavailable"}), 0);
+    }
+    let oks = text.matches(&format!("ok {}", scenario)).count();
+    if out.status.success() {
+        return (serde_json::json!({"scenario": scenario, "status": "held", "scheduler_seeds": format!("{}..{}", from, from + n), "seeds_run": tried, "seeds_ok": oks, "wall_s": wall, "engine": "cargo +nightly miri run (-Zmiri-many-seeds, preemption at basic-block granularity, data-race detector, UB checks), real crossbeam-channel / parking_lot / OS-thread code, host clock"}), 0);
+    }
+    // a failing seed: what failed?
+    let failing: Option<u64> = text.lines().find_map(|l| l.trim().strip_prefix("FAILING SEED:").and_then(|x| x.trim().parse().ok()));
+    let (rule, detail) = if let Some(l) = text.lines().find(|l| l.starts_with("MIRI-VIOLATION")) {
+        let rule = l.split_whitespace().find_map(|w| w.strip_prefix("rule=")).unwrap_or("M-expectation").to_string();
+        (rule, l.to_string())
+    } else if let Some(l) = text.lines().find(|l| l.contains("Undefined Behavior") || l.contains("Data race")) {
+        ("M-undefined-behaviour-or-data-race".to_string(), l.trim().to_string())
+    } else if let Some(l) = text.lines().find(|l| l.contains("panicked at")) {
+        ("M-panic".to_string(), l.trim().to_string())
+    } else if text.contains("deadlock") {
+        ("M-deadlock".to_string(), "Miri reports a deadlock".to_string())
+    } else {
+        ("M-failed".to_string(), text.lines().rev().find(|l| l.starts_with("error")).unwrap_or("miri run failed").to_string())
+    };
+    let replay_dir = verif_dir().join("replays");
+    let _ = std::fs::create_dir_all(&replay_dir);
+    let path = replay_dir.join(format!("{}-{}-miri-{}.json", prop, rule, failing.unwrap_or(0)));
+    let rf = serde_json::json!({"kind": "miri", "property": prop, "rule": rule, "scenario": scenario, "miri_seed": failing, "detail": detail});
+    std::fs::write(&path, serde_json::to_string_pretty(&rf).unwrap()).unwrap();
+    println!("VIOLATION property={} replay={}", prop, path.display());
+    println!("  rule={} [miri scenario {}] failing scheduler seed {:?} of {}..{}", rule, scenario, failing, from, from + n);
+    println!("  {}", detail);
+    (serde_json::json!({"scenario": scenario, "status": "violation", "rule": rule, "failing_seed": failing, "seeds_run": tried, "wall_s": wall, "replay": path.display().to_string()}), 1)
+}
+
+fn cmd_replay_miri(v: &serde_json::Value, dump: bool) -> i32 {
+    let scenario = v["scenario"].as_str().unwrap_or("");
+    let Some(seed) = v["miri_seed"].as_u64() else {
+        eprintln!("replay file has no miri seed");
+        return 2;
+    };
+    let Ok(out) = miri_cmd(scenario, &format!("-Zmiri-seed={}", seed)).output() else {
+        eprintln!("harness error: cargo +nightly miri could not be started");
+        return 2;
+    };
+    let text = format!("{}{}", String::from_utf8_lossy(&out.stdout), String::from_utf8_lossy(&out.stderr));
+    if dump {
+        println!("{}", text);
+    }
+    if out.status.success() {
+        println!("not reproduced: property={} scenario={} seed={}", v["property"].as_str().unwrap_or(""), scenario, seed);
+        0
+    } else {
+        let l = text.lines().find(|l| l.starts_with("MIRI-VIOLATION") || l.contains("Undefined Behavior") || l.contains("Data race") || l.contains("panicked at")).unwrap_or("miri run failed");
+        println!("reproduced: property={} rule={} [miri scenario {} seed {}]", v["property"].as_str().unwrap_or(""), v["rule"].as_str().unwrap_or(""), scenario, seed);
+        println!("  {}", l.trim());
+        1
+    }
+}
+
 fn level_of(prop: &str) -> &'static str {
     match prop {
         "C05" | "C10" | "C11" | "C12" => "fault_enumeration",
@@ -287,7 +398,7 @@ fn level_of(prop: &str) -> &'static str {
 }
 
 #[allow(clippy::too_many_arguments)]
-fn write_evidence(prop: &str, tier: &str, seed: u64, agg: &Agg, wall: f64, violations: usize, known: usize, reported: &[serde_json::Value]) {
+fn write_evidence(prop: &str, tier: &str, seed: u64, agg: &Agg, wall: f64, violations: usize, known: usize, reported: &[serde_json::Value], miri: &serde_json::Value) {
     let dir = verif_dir().join("evidence");
     let _ = std::fs::create_dir_all(&dir);
     let ev = serde_json::json!({
@@ -317,6 +428,7 @@ fn write_evidence(prop: &str, tier: &str, seed: u64, agg: &Agg, wall: f64, viola
             "flavour_split": agg.flavors,
             "violations_of_other_properties_seen_in_these_runs": agg.other_prop_violations,
             "reported": reported,
+            "second_stage_miri": miri,
             "known_findings_matched": known,
             "real_components": ["stretto cache, store, ttl, policy, ring, sketch, bbloom, metrics, histogram, utils (working tree of /repo)", "parking_lot locks", "wg wait groups", "async flavour: async-channel, futures::select!, event-listener, wg::AsyncWaitGroup"],
             "stubbed_components": ["OS scheduler (baton scheduler, one task at a time)", "std::thread::spawn / executor spawner", "wall clock (SystemTime)", "crossbeam tick / async-io Timer", "sync flavour: crossbeam-channel and select! (simulator channel)"],
